@@ -274,9 +274,12 @@ Proof.
 Qed.
 
 (* the grid is not trivial: it contains supported and unsupported points *)
+Definition count_supported : N :=
+  N.of_nat (length (filter (fun dh => match spec_decl (fst dh) (snd dh) with
+                                      | Some _ => true | None => false end) grid_decls)).
 Example C09_nv_grid :
-  length grid_decls = 47040%nat /\
-  In (VTuple [], Some (TGen OTuple [ABase BInt; AEllipsis])) grid_decls /\
+  N.of_nat (length grid_defaults) = 159%N /\ N.of_nat (length grid_hints) = 237%N /\
+  N.of_nat (length grid_decls) = 37842%N /\ count_supported = 10490%N /\
   spec_decl (VTuple []) (Some (TGen OTuple [ABase BInt; AEllipsis])) = Some NIntegerArr /\
   spec_decl (VList [SInt 3]) (Some (TGen OTuple [ABase BInt; ABase BStr])) = None.
 Proof. vm_compute. intuition. Qed.
